@@ -220,3 +220,27 @@ T("C03", "twin-gate-sorted-leftovers-kept", F, "    ret.extend(options)\n    ret
 _IMPORT_STRUCT = (F, "import io\n", "import io\nimport struct\n")
 M("C03", "recover-length-struct-little-endian", F, "", "", "C03.R", edits=[
     _IMPORT_STRUCT, (F, "            length = u32be(p.read(4))\n            rsteps.append((\"append\", length))", "            (length,) = struct.unpack(\"<I\", p.read(4))\n            rsteps.append((\"append\", length))")])
+
+# ------------------------------------------------------------------------------------------------ assumptions are facts about abstract values
+# (the opcode of a run is a named assumption about the value decoded from the iteration's first read - no bytes are fed
+# to the parser; what a loop carries around is unknown)
+_REC_LOOP = "    p = io.BytesIO(program)\n    while True:\n        d = p.read(4)\n        if not d:\n            break\n        step = u32be(d)\n"
+T("C03", "twin-execute-set-exit", F, "        if not d or d == b\"\\x00\":\n            break\n", "        if d in {b\"\", b\"\\x00\"}:\n            break\n")
+T("C03", "twin-execute-opcode-by-index", F, "        inject = InjectExecutor(d)\n", "        inject = InjectExecutor(d[0])\n")
+T("C03", "twin-execute-opcode-little-endian-byte", F, "        inject = InjectExecutor(d)\n", "        inject = InjectExecutor(int.from_bytes(d, \"little\"))\n")
+M("C03", "execute-opcode-shifted", F, "        inject = InjectExecutor(d)\n", "        inject = InjectExecutor(d[0] + 1)\n", "C03.R7")
+T("C03", "twin-recover-raw-zero-exit", F, _REC_LOOP, _REC_LOOP.replace("        step = u32be(d)\n", "        if d == b\"\\x00\\x00\\x00\\x00\":\n            break\n        step = u32be(d)\n"))
+M("C03", "recover-raw-exit-on-base64", F, _REC_LOOP, _REC_LOOP.replace("        step = u32be(d)\n", "        if d == b\"\\x00\\x00\\x00\\x03\":\n            break\n        step = u32be(d)\n"), "C03.R")
+M("C03", "recover-opcode-little-endian", F, _REC_LOOP, _REC_LOOP.replace("step = u32be(d)", "step = u32(d)"), "C03.R3")
+T("C03", "twin-recover-counter-logged", F, _REC_LOOP,
+  "    p = io.BytesIO(program)\n    count = 0\n    while True:\n        d = p.read(4)\n        if not d:\n            break\n        count += 1\n        logger.debug(\"step %d\", count)\n        step = u32be(d)\n")
+M("C03", "recover-counter-stops-the-loop", F, _REC_LOOP,
+  "    p = io.BytesIO(program)\n    count = 0\n    while True:\n        d = p.read(4)\n        if not d:\n            break\n        count += 1\n        if count > 2:\n            break\n        step = u32be(d)\n", "C03.R3")
+M("C03", "recover-stops-after-three-steps", F, "        step = u32be(d)\n        if step == TransformStep.APPEND:\n", "        step = u32be(d)\n        if len(rsteps) >= 3:\n            break\n        if step == TransformStep.APPEND:\n", "C03.R3")
+M("C03", "transform-later-base64-stops", F, "    p = io.BytesIO(program)\n    while True:\n        d = p.read(4)\n        value = u32be(d)\n",
+  "    p = io.BytesIO(program)\n    first = True\n    while True:\n        d = p.read(4)\n        value = u32be(d)\n        if not first and value == 3:\n            break\n        first = False\n", "C03.R3")
+T("C03", "twin-gargle-read-ahead", F, "", "", edits=[
+    (F, "    while True:\n        d = p.read(4)\n        if not d:\n            break\n        start = u32(d)\n        end = u32(p.read(4))\n", "    d = p.read(4)\n    while d:\n        start = u32(d)\n        end = u32(p.read(4))\n        d = p.read(4)\n"),
+    (F, "        if (start, end) != (0, 0):\n            value = f\"0x{start:x}-0x{end:x}\"\n            addresses.append(value)\n    return addresses",
+     "        if (start, end) != (0, 0):\n            addresses.append(f\"0x{start:x}-0x{end:x}\")\n    return addresses"),
+])
